@@ -252,7 +252,7 @@ func runSweep20(a *args) {
 							case "C11":
 								checkTenth(col, prop, v, o, "temporal", gt, p, msg, 0)
 							case "C12":
-								if !p && e != "ND" && rl != "ND" && rc != "ND" {
+								if !p { // a metric at ND has no successor in the severity order and is skipped by neighbours2 itself
 									neighbours2(col, prop, tb, v, o, c, "temporal", []string{"AV", "AC", "Au", "C", "I", "A", "E", "RL", "RC"}, &lc)
 								}
 							}
